@@ -742,6 +742,72 @@ func run(c *core.Ctx) {
 			verify(c, ct, m, vpool, via, "Contains")
 		}
 	}
+	if big && !thousand && kind != 1 && !c.Failed() && t.Bool(1, 2) {
+		// drain: a collection that has grown is emptied again member by member in a drawn order (a
+		// followers list after a defederation, an inbox that is purged), down to 0..4 members, so that
+		// a representation that shrinks or compacts at some fill ratio of its capacity takes that path
+		// (seeded wave 11: a Remove that re-allocates at a quarter of a capacity of 64 or more)
+		c.Probe("drain_phase")
+		byID := map[string]ap.Item{}
+		for _, p := range pool {
+			byID[p.id] = p.it
+		}
+		if t.Bool(1, 2) {
+			// fill first: every pool item once more, one call each
+			for _, p := range pool {
+				_ = ct.app(p.it)
+				m.add(p.id)
+			}
+			c.Logf("fill: Append of every pool item, one call each")
+			verify(c, ct, m, pool, false, "fill before drain")
+		}
+		known := true
+		for _, id := range m.ids {
+			if _, ok := byID[id]; !ok {
+				known = false // members the decoder made (not pool items) stay where they are
+			}
+		}
+		stop := t.Draw(5)
+		if !known {
+			stop = len(m.ids)
+		}
+		for n := 0; len(m.ids) > stop && n < 200 && !c.Failed(); n++ {
+			c.Rec.Ops++
+			j := t.Draw(len(m.ids))
+			if t.Bool(1, 6) {
+				j = len(m.ids) - 1
+			}
+			id := m.ids[j]
+			it, ok := byID[id]
+			if !ok {
+				it = ap.IRI(id)
+			}
+			step := fmt.Sprintf("drain: Remove(%s)", short(id))
+			c.Logf("%s", step)
+			if err := ct.remove(it); err != nil {
+				c.Fail("model", "C13/"+kindNames[kind]+"/Remove/view-error", "item-list view refused: %v", err)
+			}
+			m.del(id)
+			changes++
+			vpool = pool
+			if len(m.ids) > stop && n%16 != 15 {
+				vpool = make([]poolItem, 8)
+				for k := range vpool {
+					vpool[k] = pool[t.Draw(nPool)]
+				}
+			}
+			verify(c, ct, m, vpool, false, step)
+		}
+		// and it is usable afterwards: what was removed can be appended again
+		for n := 0; n < 3 && !c.Failed(); n++ {
+			p := pool[t.Draw(nPool)]
+			step := fmt.Sprintf("after drain: Append(%s %s)", p.shape, short(p.id))
+			c.Logf("%s", step)
+			_ = ct.app(p.it)
+			m.add(p.id)
+			verify(c, ct, m, pool, false, step)
+		}
+	}
 	c.Rec.Nontriv = changes > 0
 	c.Rec.CaseHash = core.HashStr(strings.Join(c.Trace, ";"))
 }
